@@ -24,7 +24,7 @@ RULE = ("Part A: a csr.Decoder over 0-5 plain subordinate interfaces (sizes 2..3
         "registers. Distinct = canonical JSON.")
 BUDGET = {"quick": (16, 200), "thorough": (16, 4000)}
 ESSENTIAL = ["part:A", "part:B", "unassigned_address", "alignment_padding_address", "named", "anonymous",
-             "explicit_slot", "refused_add_ghost", "B:depth>=2", "full_width_sub", "add_order_differs_from_address_order"]
+             "explicit_slot", "refused_add_ghost", "add_after_elaboration", "readd_refused", "decoder_beyond_32_address_bits", "B:depth>=2", "full_width_sub", "add_order_differs_from_address_order"]
 ASSUMPTIONS = [
     "subordinates obey the CSR bus protocol: r_data is zero except in the cycle after their own r_stb",
     "part B uses shadow_overlaps=None everywhere (C05 covers sharing limits)",
@@ -45,7 +45,9 @@ def _tree(draw, dw, depth):
                      "gap": draw(st.integers(0, 2)), "k": draw(st.integers(0, 4)), "aw": 1,
                      "pk": draw(st.integers(0, 9))})
     return {"type": "dec", "dw": dw, "al": draw(st.sampled_from([0, 0, 1, 2, 3])), "subs": subs,
-            "extra_aw": draw(st.integers(0, 1)), "squeeze": False, "shuffle": draw(st.integers(0, 2)) == 0}
+            "extra_aw": draw(st.integers(0, 1)), "squeeze": False, "shuffle": draw(st.integers(0, 2)) == 0,
+            "mid_elab": draw(st.sampled_from([None, None, None, 0, 1])),
+            "readd": [draw(st.integers(0, 2))] if draw(st.integers(0, 5)) == 0 else []}
 
 
 @st.composite
@@ -71,6 +73,8 @@ def _check_a(spec, stats):
     dec, ifaces, plan = gens.build_csr_decoder(cfg)
     mm = dec.bus.memory_map
     aw, dw = dec.bus.addr_width, cfg["dw"]
+    stats.label("add_after_elaboration", getattr(dec, "mid_elaborated", False) and cfg["mid_elab"] < len(ifaces) - 1)
+    stats.label("readd_refused", getattr(dec, "readd_refused", False))
     wins = []       # (iface index, start, own_end, reserved_end)
     for wmap, name, (ws, we, ratio) in mm.windows():
         idx = [i for i, f in enumerate(ifaces) if f.memory_map is wmap]
@@ -87,6 +91,7 @@ def _check_a(spec, stats):
     stats.label("full_width_sub", any(f.addr_width == aw for f in ifaces))
     n = len(ifaces)
     size = 1 << aw
+    stats.label("decoder_beyond_32_address_bits", aw > 32)
     if size <= 512:
         addrs = list(range(size))
     else:
@@ -95,6 +100,8 @@ def _check_a(spec, stats):
             pts.update(x for x in (s - 1, s, s + 1, oe - 1, oe, oe + 1, re - 1, re) if 0 <= x < size)
         pts.update([0, size - 1])
         pts.update(hval(seed, "addr", k, aw) for k in range(300))
+        for _, s, oe, re in wins:
+            pts.update(s + hval(seed, "in", k, 8) % (oe - s) for k in range(20))
         addrs = sorted(pts)
     schedule = []
     for a in addrs:
@@ -165,8 +172,7 @@ def _check_a(spec, stats):
 def _build_tree(node, path, leaves):
     """-> (interface, depth). Appends (reg, lay_reg) to ``leaves`` for every mock register."""
     if node["type"] == "mux":
-        mm, regs = gens.build_csr_map(node["lay"], name_prefix="r" + "x".join(str(x) for x in path) + "y")
-        mux = csr.Multiplexer(mm)
+        mux, regs = gens.build_csr_mux(node["lay"], None, name_prefix="r" + "x".join(str(x) for x in path) + "y")
         for (reg, s, e), r in zip(regs, node["lay"]["regs"]):
             leaves.append((reg, r))
         return mux.bus, 0, [mux]
